@@ -8,7 +8,7 @@ V = os.path.dirname(os.path.dirname(os.path.abspath(__file__)))
 CHECKS = {
  "C04": ("exploration",
          "exhaustive enumeration of the (type, width, value, literal form) boundary table against the closed-form ranges of the statement, plus proptest sampling of wide types",
-         "Complete enumeration of every (uN/sN/iN/#dN, N <= 16, v in [-2^N-4, 2^N+4]) (quick: complete to N = 13, boundary neighbourhoods above) and of #dN with sized literals of every width, in rotating operand forms (at the boundaries: every form, including operators over sized operands and bitwise operators between one sized and one unsized operand), plus sampled widths 17..256 at the boundaries. Within those bounds acceptance, emitted bits and error location are decided for every value; beyond them it is sampling.",
+         "Complete enumeration of every (uN/sN/iN/#dN, N <= 16, v in [-2^N-4, 2^N+4]) (quick: complete to N = 13, boundary neighbourhoods above) and of #dN with sized literals of every width, in rotating operand forms (at the boundaries: every form, including operators over sized operands and bitwise operators between one sized and one unsized operand), plus values beyond the machine word whose low word lies inside the range, plus sampled widths 17..256 at the boundaries. Within those bounds acceptance, emitted bits and error location are decided for every value; beyond them it is sampling.",
          "`t {x: TYPE} => x` as the observation of the emitted bits; the four N = 0 rejections are listed known findings.",
          "6/C04"),
  "C05": ("exploration",
